@@ -31,14 +31,20 @@ def rand_vec(rng):
 
 
 def spawn_module(with_start, tag=0):
-    """spawn(arg) calls the WASI import; the start function reports (tid, arg + tag) and bumps a shared cell."""
+    """spawn(arg) calls the WASI import; the start function reports (tid, arg + tag) through a function it reaches via the
+    IMPORTED table (a thread's child instance needs every kind of import of its parent) and bumps a shared cell."""
     g = lambda k: ["local.get", k]
     m = {"types": [{"p": ["i32", "i32"], "r": []}, {"p": ["i32"], "r": ["i32"]}, {"p": [], "r": ["i32"]}],
          "imports": [{"mod": "env", "name": "report", "kind": "func", "type": 0, "ret": []},
-                     {"mod": "wasi", "name": "thread-spawn", "kind": "func", "type": 1, "ret": b32(0)}],
-         "funcs": [{"type": 0, "locals": [], "body": [g(0), g(1), ["i32.const", b32(tag)], ["i32.add"], ["call", 0], ["i32.const", b32(64)], ["i32.const", b32(1)], ["i32.atomic.rmw.add", 2, 0], ["drop"], ["end"]]},
+                     {"mod": "wasi", "name": "thread-spawn", "kind": "func", "type": 1, "ret": b32(0)},
+                     {"mod": "env", "name": "tab", "kind": "table", "min": 2, "max": None},
+                     {"mod": "env", "name": "bias", "kind": "global", "t": "i32", "mut": False}],
+         "funcs": [{"type": 0, "locals": [], "body": [g(0), g(1), ["i32.const", b32(tag)], ["i32.add"], ["global.get", 0], ["i32.add"], ["i32.const", b32(1)], ["call_indirect", 0, 0],
+                                                       ["i32.const", b32(64)], ["i32.const", b32(1)], ["i32.atomic.rmw.add", 2, 0], ["drop"], ["end"]]},
                    {"type": 1, "locals": [], "body": [g(0), ["call", 1], ["end"]]},
-                   {"type": 2, "locals": [], "body": [["i32.const", b32(64)], ["i32.atomic.load", 2, 0], ["end"]]}],
+                   {"type": 2, "locals": [], "body": [["i32.const", b32(64)], ["i32.atomic.load", 2, 0], ["end"]]},
+                   {"type": 0, "locals": [], "body": [g(0), g(1), ["call", 0], ["end"]]}],
+         "elems": [{"offset": ["i32.const", b32(1)], "funcs": [5]}],
          "memory": {"min": 1, "max": 1, "shared": True},
          "exports": ([{"name": "wasi_thread_start", "kind": "func", "idx": 2}] if with_start else [{"name": "not_the_start", "kind": "func", "idx": 2}]) +
                     [{"name": "spawn", "kind": "func", "idx": 3}, {"name": "cell", "kind": "func", "idx": 4}, {"name": "memory", "kind": "memory", "idx": 0}]}
@@ -80,6 +86,14 @@ def main():
             shutil.rmtree(sb, ignore_errors=True)
             return p.returncode, [json.loads(l) for l in p.stdout.decode().splitlines() if l.startswith("{")], p.stderr.decode("utf8", "replace")
         vec_out = pmap(run_vec, range(nv))
+        # the same vectors in the configuration of a big-endian host (forced on this machine: every multi-byte value the
+        # host stores into guest memory is then byte-swapped with respect to the raw bytes, consistently for loads and stores,
+        # so the raw image must hold the pointers and sizes most significant byte first)
+        exe_le = exe
+        exe = wasi.build_driver(wd, name="wasidrv-be", extra=["-DWASM_ENDIAN=1"])
+        vec_out_be = pmap(run_vec, range(0, nv, 2 if tier == "quick" else 1))
+        vec_out_be = dict(zip(range(0, nv, 2 if tier == "quick" else 1), vec_out_be))
+        exe = exe_le
         for j, (argv, env) in enumerate(cfgs):
             for which, vec in (("args", argv), ("env", env)):
                 total = sum(len(x) + 1 for x in vec)
@@ -221,7 +235,10 @@ def main():
                 for rep in range(3 if tier == "quick" else 30):
                     # the last repetition: every thread spawns many times, all meeting before each call
                     M_ = (25 if tier == "quick" else 60) if (with_start and K >= 4 and rep == 2) else 1
-                    rc, so, se = run([exe_s, str(K), str(M_)], timeout=120)
+                    # ... and once with every started thread staying alive until all have been spawned (200 resp. 480 live threads):
+                    # "any number of concurrent thread-spawn calls"
+                    stay_ = ["stay"] if (with_start and K == 8 and rep == 2) else []
+                    rc, so, se = run([exe_s, str(K), str(M_)] + stay_, timeout=120)
                     try:
                         h = json.loads(so.strip().splitlines()[-1])
                     except (ValueError, IndexError):
@@ -283,41 +300,45 @@ def main():
                 raise common.MachineryError("the layout function violates its own disjointness conditions")
             v.deviation(sig, {"observation": b if kind != "spawn" else {"spawns": b["spawns"][:6], "starts": b["starts"][:6], "cell": b["cell"]}})
         # layouts vs what the real calls wrote
-        li = 0
         compared = 0
-        for j, (argv, env) in enumerate(cfgs):
-            rc, out, err = vec_out[j]
-            by = {r["call"]: r for r in out if "call" in r}
-            byi = {r["i"]: r for r in out if "call" in r}
-            for wi, (which, vec) in enumerate((("args", argv), ("env", env))):
-              total = sum(len(x) + 1 for x in vec)
-              for variant, (PA, BA, line) in enumerate(((BIG, BIG + 0x1000, None), (BIG, 40 * 65536 - total, 5 + 2 * wi), (40 * 65536 - 4 * len(vec), BIG + 0x1000, 6 + 2 * wi))):
-                lay = judged["layouts"][li]
-                li += 1
-                sizes, L = lay["s"], lay["l"]
-                sz, gt = by.get("argsizes" if which == "args" else "envsizes"), (by.get(which) if line is None else byi.get(line))
-                if line is None:
-                    gt = next((r for r in out if r.get("call") == which and r["i"] <= 4), None)
-                if sz is None or gt is None:
-                    v.deviation(wasi.asan_sig(err) or "%s:crash" % which, {"vector": [x.hex() for x in vec], "stderr": err[-400:]})
-                    continue
-                compared += 2
-                if variant == 0:
-                    ch = wasi.changed(sz)
-                    got = (int.from_bytes(bytes(ch.get(wasi.R1 + k, 0xEE) for k in range(4)), "little"), int.from_bytes(bytes(ch.get(wasi.R2 + k, 0xEE) for k in range(4)), "little"))
-                    if sz["errno"] != 0 or got != (sizes["count"], sizes["total"]) or set(ch) - set(range(wasi.R1, wasi.R1 + 4)) - set(range(wasi.R2, wasi.R2 + 4)):
-                        v.deviation("%s:sizes" % which, {"vector": [x.hex() for x in vec], "spec": sizes, "code": got, "errno": sz["errno"]})
-                ch = wasi.changed(gt)
-                exp = {}
-                for i, p in enumerate(L["ptrs"]):
-                    for k, bb in enumerate(p.to_bytes(4, "little")):
-                        exp[PA + 4 * i + k] = bb
-                for k, bb in enumerate(L["bytes"]):
-                    exp[BA + k] = bb
-                bad = [a for a in exp if ch.get(a, 0xEE) != exp[a]] + [a for a in ch if a not in exp]
-                if gt["errno"] != 0 or bad:
-                    v.deviation("%s:layout%s" % (which, ["", ":strings-end-at-memory-end", ":pointers-end-at-memory-end"][variant]),
-                                {"vector": [x.hex() for x in vec], "first_bad_address": hex(min(bad)) if bad else None, "errno": gt["errno"]})
+        for order, tagb, outs in (("little", "", dict(enumerate(vec_out))), ("big", ":big-endian-host", vec_out_be)):
+          li = 0
+          for j, (argv, env) in enumerate(cfgs):
+              if j not in outs:
+                  li += 6
+                  continue
+              rc, out, err = outs[j]
+              by = {r["call"]: r for r in out if "call" in r}
+              byi = {r["i"]: r for r in out if "call" in r}
+              for wi, (which, vec) in enumerate((("args", argv), ("env", env))):
+                total = sum(len(x) + 1 for x in vec)
+                for variant, (PA, BA, line) in enumerate(((BIG, BIG + 0x1000, None), (BIG, 40 * 65536 - total, 5 + 2 * wi), (40 * 65536 - 4 * len(vec), BIG + 0x1000, 6 + 2 * wi))):
+                  lay = judged["layouts"][li]
+                  li += 1
+                  sizes, L = lay["s"], lay["l"]
+                  sz, gt = by.get("argsizes" if which == "args" else "envsizes"), (by.get(which) if line is None else byi.get(line))
+                  if line is None:
+                      gt = next((r for r in out if r.get("call") == which and r["i"] <= 4), None)
+                  if sz is None or gt is None:
+                      v.deviation(wasi.asan_sig(err) or "%s:crash" % which, {"vector": [x.hex() for x in vec], "stderr": err[-400:]})
+                      continue
+                  compared += 2
+                  if variant == 0:
+                      ch = wasi.changed(sz)
+                      got = (int.from_bytes(bytes(ch.get(wasi.R1 + k, 0xEE) for k in range(4)), order), int.from_bytes(bytes(ch.get(wasi.R2 + k, 0xEE) for k in range(4)), order))
+                      if sz["errno"] != 0 or got != (sizes["count"], sizes["total"]) or set(ch) - set(range(wasi.R1, wasi.R1 + 4)) - set(range(wasi.R2, wasi.R2 + 4)):
+                          v.deviation("%s:sizes%s" % (which, tagb), {"vector": [x.hex() for x in vec], "spec": sizes, "code": got, "errno": sz["errno"]})
+                  ch = wasi.changed(gt)
+                  exp = {}
+                  for i, p in enumerate(L["ptrs"]):
+                      for k, bb in enumerate(p.to_bytes(4, order)):
+                          exp[PA + 4 * i + k] = bb
+                  for k, bb in enumerate(L["bytes"]):
+                      exp[BA + k] = bb
+                  bad = [a for a in exp if ch.get(a, 0xEE) != exp[a]] + [a for a in ch if a not in exp]
+                  if gt["errno"] != 0 or bad:
+                      v.deviation("%s:layout%s%s" % (which, ["", ":strings-end-at-memory-end", ":pointers-end-at-memory-end"][variant], tagb),
+                                  {"vector": [x.hex() for x in vec], "first_bad_address": hex(min(bad)) if bad else None, "errno": gt["errno"]})
     finally:
         shutil.rmtree(wd, ignore_errors=True)
     cov = {"states": ts_ok["distinct"] + ts_bad["distinct"] + jr["distinct"], "transitions": ts_ok["generated"] + ts_bad["generated"] + jr["generated"],
